@@ -1,5 +1,5 @@
 """C13 — size limits and block-size choice: the borders (structural clauses only)."""
-from ..rules import generator as gen, engine, piece, casts, summary
+from ..rules import generator as gen, engine, piece, casts, summary, beliefs
 
 EXPL = ("Decides the *borders* named in the property from the exact branch conditions in MIR with rustc-evaluated constants: "
         "set_fixed_input_size refuses exactly size > 192 GiB (206158430208); finalisation returns InputSizeTooLarge exactly for "
@@ -35,6 +35,8 @@ def run(ctx):
         ctx.guard("C13", "reset-side", lambda: gen.reset_side_conditions(ctx, prog))
         ctx.guard("C13", "summaries", lambda: summary.check(ctx, prog, 'internals::generate::Generator', floor=5))
         ctx.guard("C13", "path summaries", lambda: summary.check_paths(ctx, prog, 'internals::generate::Generator', floor=2))
+        if c in ("dbg", "unsafe_dbg", "strict_dbg"):
+            ctx.guard("C13", "beliefs", lambda: beliefs.census(ctx, prog, beliefs.SCOPES["C13"][0], floor=beliefs.SCOPES["C13"][1]))
         ctx.guard("C13", "casts", lambda: casts.census(ctx, prog, scope='internals::generate::', floor=3))
         if not c.startswith("unsafe"):
             ctx.guard("C13", "piece", lambda: piece.piece_effects(ctx, prog))
